@@ -303,7 +303,8 @@ class BeckeRTransform(BaseTransform):
         """
         with warnings.catch_warnings():
             warnings.filterwarnings("ignore", category=RuntimeWarning)
-            rf_array = self._R * (1 + x) / (1 - x) + self._rmin
+            # (np.float64: a Python float at the end point x = 1 divides by zero like an array does)
+            rf_array = self._R * (1 + x) / (np.float64(1) - x) + self._rmin
         if self.trim_inf:
             rf_array = self._convert_inf(rf_array)
         return rf_array
@@ -1870,7 +1871,10 @@ class HandyRTransform(BaseTransform):
             One dimensional array in :math:`[r_{min},\infty)`\.
 
         """
-        rf_array = self._R * ((1 + x) / (1 - x)) ** self._m + self._rmin
+        with warnings.catch_warnings():
+            warnings.filterwarnings("ignore", category=RuntimeWarning)
+            # (np.float64: a Python float at the end point x = 1 divides by zero like an array does)
+            rf_array = self._R * ((1 + x) / (np.float64(1) - x)) ** self._m + self._rmin
         if self.trim_inf:
             rf_array = self._convert_inf(rf_array)
         return rf_array
